@@ -274,6 +274,8 @@ func runCal(dir string, emit func(interface{}), conc0 *xmlt.Conc, mod, rem int) 
 		}
 		emit(cev)
 	})
+	mgSelf := &caldav.CalendarMultiGet{CompRequest: caldav.CalendarCompRequest{Name: "VCALENDAR", AllProps: true, AllComps: true}}
+	selfTwice(func(p string) error { _, err := cl.MultiGetCalendar(context.Background(), p, mgSelf); return err }, ch, "/u/cal/c/", "/u/cal/other one/", emit)
 	n = 0
 	readCases(dir+"/invalid.ndjson", func(b []byte) {
 		n++
